@@ -207,6 +207,8 @@ fn run_all(cases: Vec<Value>) {
     for (i, c) in cases.into_iter().enumerate() {
         if !ok[i] { emit(c, json!({"harness_error": "write"})); continue; }
         if let Some(v) = sched_out[i].take() { emit(c, v); continue; }
+        // the scratch directory is shared with other runs' clean-ups: files that vanished under us are not an observation
+        if !case_dir(&root, i).join("a.parquet").exists() || !case_dir(&root, i).join("c.parquet").exists() { emit(c, json!({"harness_error": "scratch files vanished"})); continue; }
         emit(c, Value::Object(merged[i].clone()));
     }
     let _ = std::fs::remove_dir_all(&root);
@@ -278,8 +280,8 @@ fn spawn_role(role: &str, ipc: Option<&str>, ctl: &Path, path: &Path) -> Option<
 
 fn finish(ch: Option<std::process::Child>) -> Value {
     match ch.and_then(|c| c.wait_with_output().ok()) {
-        Some(o) => String::from_utf8_lossy(&o.stdout).lines().last().and_then(|l| serde_json::from_str::<Value>(l).ok()).unwrap_or(json!({"err": "no output"})),
-        None => json!({"err": "spawn"}),
+        Some(o) => String::from_utf8_lossy(&o.stdout).lines().last().and_then(|l| serde_json::from_str::<Value>(l).ok()).unwrap_or(json!({"harness": "no output"})),
+        None => json!({"harness": "spawn"}),
     }
 }
 
@@ -317,7 +319,9 @@ fn run_sched(c: &Value, dir: &Path) -> Value {
                 rr = finish(spawn_role("R", None, &ctl, &path));
             }
             let r2 = finish(spawn_role("R2", None, &ctl, &path));
-            json!({"sched_ok": ok, "A": ra, "B": rb, "R": rr, "R2": r2})
+            // a participant that could not be spawned / printed nothing is a harness artefact, not an observation
+            let harness_ok = ![&ra, &rb, &rr, &r2].iter().any(|v| v.get("harness").is_some());
+            json!({"sched_ok": ok && harness_ok, "A": ra, "B": rb, "R": rr, "R2": r2})
         }
     }
 }
